@@ -114,7 +114,16 @@ impl std::fmt::Display for Literal {
             Literal::Float(i) => write!(f, "{i}")?,
 
             Literal::String(s) => {
-                write!(f, "{}", quote_string(escape_all_except_quotes(s).as_str()))?;
+                let s = escape_all_except_quotes(s);
+                // Neither quote can delimit a string that has a double quote at
+                // one end and a single quote at the other: the delimiter would
+                // merge with the text. Escape the double quotes instead.
+                let at_an_end = |q: char| s.starts_with(q) || s.ends_with(q);
+                if at_an_end('"') && at_an_end('\'') {
+                    write!(f, "\"{}\"", s.replace('"', "\\\""))?;
+                } else {
+                    write!(f, "{}", quote_string(s.as_str()))?;
+                }
             }
 
             Literal::RawString(s) => {
